@@ -23,7 +23,8 @@ OptSetTab == [i \in 1..NOptSets |-> OptSet(i)]
 StepOf(r) == Step(r.from, CHOOSE e \in Edges(r.from) : e.f = r.f, r.pos)
 PathOf(line) == [i \in DOMAIN line.path |-> StepOf(line.path[i])]
 LeafOf(line) == [rule |-> line.rule, var |-> line.var]
-ViaOf(path) == [i \in DOMAIN path |-> <<path[i].from, path[i].f>>]
+ViaOf(path) == ViaOfPath(path)
+NoOptTab == [i \in 1..NOptSets |-> NoOptionGiven(OptSeq(i))]
 
 (* the violations of the document the code was given; an "unresolved" case adds the reference the *)
 (* driver un-resolved after loading                                                               *)
@@ -59,14 +60,15 @@ LineOK(line) ==
         ELSE LET Vs == ViolOf(line, path)
                  sites == Sites(line.doc)
                  refusers == Refusers(line.doc, sites)
+                 msites == ModeSites(line.doc, sites)
                  M  == {i \in 1..NOptSets : InScope(Vs, OptSetTab[i]) /\ Wrong(line, Vs, i)}
-                 Cs == {Class(line, Vs, sites, OptSetTab[i], Got(line, i)) : i \in M}
+                 Cs == {Class(line, Vs, sites, OptSetTab[i], NoOptTab[i], Got(line, i)) : i \in M}
                  Fid == {i \in 1..NOptSets : InScope(Vs, OptSetTab[i])
-                                              /\ (Got(line, i) = "A") # ImplAcceptR(line.doc, Vs, refusers, OptSetTab[i])}
+                                              /\ (Got(line, i) = "A") # ImplAcceptR(line.doc, Vs, refusers, sites, msites, OptSetTab[i], NoOptTab[i])}
              IN /\ (Fid = {}) \/ CSVWrite("%1$s", <<ToJson([case |-> line.case, path |-> line.path, rule |-> line.rule,
                                                               var |-> line.var, optsets |-> Fid])>>, "fidelity.ndjson")
                 /\ \A c \in Cs :
-                   CSVWrite("%1$s", <<ToJson(Report(line, c, {i \in M : Class(line, Vs, sites, OptSetTab[i], Got(line, i)) = c}, Vs))>>,
+                   CSVWrite("%1$s", <<ToJson(Report(line, c, {i \in M : Class(line, Vs, sites, OptSetTab[i], NoOptTab[i], Got(line, i)) = c}, Vs))>>,
                             "violations.ndjson")
 
 Judge == l > 0 => LineOK(Trace[l])
